@@ -1189,7 +1189,116 @@ fn run_dfs(words: &[&str]) -> String {
     }
 }
 
+// ---------------- sub-waker probe ----------------
+/// A combinator in the style of FuturesUnordered / JoinSet: it polls its child with a waker of its own and polls it again
+/// only after that waker has fired.  A leaf future that wakes anything but the waker it was polled with leaves the gate
+/// pending for ever.
+struct SubWake {
+    fired: std::sync::atomic::AtomicBool,
+    outer: std::sync::Mutex<Option<std::task::Waker>>,
+}
+impl std::task::Wake for SubWake {
+    fn wake(self: Arc<Self>) {
+        self.wake_by_ref()
+    }
+    fn wake_by_ref(self: &Arc<Self>) {
+        self.fired.store(true, std::sync::atomic::Ordering::SeqCst);
+        let w = self.outer.lock().unwrap().clone();
+        if let Some(w) = w {
+            w.wake_by_ref();
+        }
+    }
+}
+struct Gate<F> {
+    child: Pin<Box<F>>,
+    sub: Arc<SubWake>,
+    polled: bool,
+}
+impl<F: Future> Future for Gate<F> {
+    type Output = F::Output;
+    fn poll(mut self: Pin<&mut Self>, cx: &mut std::task::Context<'_>) -> std::task::Poll<F::Output> {
+        *self.sub.outer.lock().unwrap() = Some(cx.waker().clone());
+        if !self.polled || self.sub.fired.swap(false, std::sync::atomic::Ordering::SeqCst) {
+            self.polled = true;
+            let w = std::task::Waker::from(self.sub.clone());
+            let mut c2 = std::task::Context::from_waker(&w);
+            self.child.as_mut().poll(&mut c2)
+        } else {
+            std::task::Poll::Pending
+        }
+    }
+}
+fn gate<F: Future>(f: F) -> Gate<F> {
+    Gate {
+        child: Box::pin(f),
+        sub: Arc::new(SubWake { fired: std::sync::atomic::AtomicBool::new(false), outer: std::sync::Mutex::new(None) }),
+        polled: false,
+    }
+}
+
+/// tokprobe subwaker <k>: leaf future number k awaited through the gate by a spawned task while the main thread produces
+/// the event it waits for; explored with the DFS scheduler (random data allowed).  k: 0 shuttle::future::yield_now,
+/// 1 a JoinHandle, 2 tokio oneshot receiver, 3 tokio Notified, 4 tokio watch changed(), 5 tokio::task::yield_now
+fn run_subwaker(k: &str) -> String {
+    let k: usize = k.parse().unwrap_or(99);
+    let mut config = Config::new();
+    config.failure_persistence = FailurePersistence::None;
+    let sched = shuttle_schedulers::DfsScheduler::new(Some(3000), true);
+    let res = catch_unwind(AssertUnwindSafe(|| {
+        Runner::new(sched, config).run(move || match k {
+            0 => {
+                let a = shuttle::future::spawn(SendFut(gate(shuttle::future::yield_now())));
+                shuttle::future::block_on(a).unwrap();
+            }
+            1 => {
+                let w = shuttle::future::spawn(async {
+                    shuttle::future::yield_now().await;
+                    7u64
+                });
+                let a = shuttle::future::spawn(SendFut(gate(w)));
+                assert_eq!(shuttle::future::block_on(a).unwrap().unwrap(), 7);
+            }
+            2 => {
+                let (tx, rx) = oneshot::channel::<u64>();
+                let a = shuttle::future::spawn(SendFut(gate(rx)));
+                thread::yield_now();
+                tx.send(5).unwrap();
+                assert_eq!(shuttle::future::block_on(a).unwrap().unwrap(), 5);
+            }
+            3 => {
+                let n = Arc::new(tk::sync::Notify::new());
+                let n2 = n.clone();
+                let a = shuttle::future::spawn(SendFut(gate(async move { n2.notified().await })));
+                thread::yield_now();
+                n.notify_one();
+                shuttle::future::block_on(a).unwrap();
+            }
+            4 => {
+                let (tx, mut rx) = watch::channel(0u64);
+                let a = shuttle::future::spawn(SendFut(gate(async move { rx.changed().await.is_ok() })));
+                thread::yield_now();
+                tx.send(1).unwrap();
+                assert!(shuttle::future::block_on(a).unwrap());
+            }
+            _ => {
+                let a = shuttle::future::spawn(SendFut(gate(tk::task::yield_now())));
+                shuttle::future::block_on(a).unwrap();
+            }
+        })
+    }));
+    match res {
+        Ok(n) => format!("PROBE OK N={}", n),
+        Err(p) => format!("PROBE FAIL {}", classify(p)),
+    }
+}
+
 pub fn run(words: &[&str]) -> String {
+    if words.first() == Some(&"tokprobe") {
+        return match words {
+            [_, what, k] if *what == "subwaker" => run_subwaker(k),
+            _ => "ERR bad probe".to_string(),
+        };
+    }
     if words.first() == Some(&"tokdfs") {
         return run_dfs(words);
     }
